@@ -6,6 +6,7 @@
 //!
 //! Exit codes: 0 = ran (violations are in the output), 2 = harness error.
 
+mod clock;
 mod entropy;
 mod nodes;
 mod plan;
